@@ -461,8 +461,12 @@ def distributed_slice(chk, quick):
 
 def run(chk):
     quick = chk.tier == "quick"
-    ok, log = chk.prove(["extract/Extract_C13.vo"])
+    ok, log = chk.prove(["extract/Extract_C13.vo"], extra_props=["Properties_C13_source.v"])
     chk.trusted += ["translator/gen_c13.py and translator/cexpr.py (tables, alias table, fill's clear() calls, frequency array)",
+                    "translator/gen_container.py (statement splitter of gen_symm.py + one reader per C++ function, ~1300 lines of Python): reads fill, set, "
+                    "isInContainer, enumerateInitialIndices, operator()(Indices), ElementWithPermFreq::operator(), createElement, prepareAll, computeAll, "
+                    "computeAll_nosplit, computeAll_split statement by statement into Gallina functions over abstract primitives (coq/gen/Gen_C4*.v); "
+                    "coq/theories/Container4Gen.v instantiates the primitives with the model's std::map / status operations (hand-written, tied by the histories below)",
                     "extraction: ExtrOcamlBasic, ExtrOcamlNatInt (nat -> int: indices and element ids < 2^62); no Extract Constant of our own",
                     "ocaml/driver_c13.ml (parsing/printing, element-id renaming by first appearance), harness/h_c13.cpp (same renaming; "
                     "keeps a shared_ptr to every element seen so that addresses identify elements), harness/ed_common.h",
@@ -654,7 +658,7 @@ def replay(chk, path):
     if "history" not in rp:
         run(chk)
         return chk.finish()
-    chk.prove(["extract/Extract_C13.vo"])
+    chk.prove(["extract/Extract_C13.vo"], extra_props=["Properties_C13_source.v"])
     env = build()
     model = [m for m in MODELS if m[0] == rp["model"]][0]
     hs = [op_from_json(o) for o in rp["history"]]
